@@ -13,6 +13,7 @@ import warnings
 import numpy as onp
 
 from ..findings import violation
+from ..explore import Skip
 from ..par import replay_generic, run_harnesses
 from ..runner import Report
 
@@ -342,14 +343,96 @@ def containers_factory(quick, seed):
     return h, judge
 
 
-HARNESSES = {"programs": programs_factory, "containers": containers_factory}
+def captured_factory(quick, seed):
+    """Index arrays / masks / weight arrays that the differentiated function merely CAPTURES (closure constants): they must stay
+    bit-for-bit unchanged - once with writeable constants (a silent write would go unnoticed otherwise) and once frozen (a write raises)."""
+    L = lib()
+    ag, np = L["ag"], L["np"]
+    IDX = {
+        "int1d": "onp.array([1, 3, 1])", "neg1d": "onp.array([-1, 3, -4])", "negrep": "onp.array([-1, -1, 0])", "int2d": "onp.array([[0, -1], [2, 2]])",
+        "mask": "onp.array([True, False, True, True, False])", "int32": "onp.array([-2, 4], dtype=onp.int32)", "tuple2": "(onp.array([0, -1]), onp.array([-1, 1]))",
+        "rowneg": "(onp.array([-1, 0]), slice(None))", "intp0d": "onp.array(-2)", "uint8": "onp.array([4, 0, 4], dtype=onp.uint8)",
+    }
+    FORMS = ["x[idx]", "x[idx] * 2.0 + x[idx]", "x[idx][::-1]", "np.sin(x)[idx]", "x[idx] * x[idx]"]     # (np.take has no reverse rule: loud)
+
+    def h(ch):
+        iname = ch.choose("index", sorted(IDX))
+        form = ch.choose("form", FORMS)
+        shape = ch.choose("shape", [(5,), (5, 2)])
+        frozen = ch.flag("frozen_constants")
+        op = ch.choose("operator", ["grad", "vjp-twice", "jvp", "hessian-diag"])
+        if form.startswith("np.take") and iname in ("mask", "tuple2", "rowneg"):
+            raise Skip("np.take needs integer positions")
+        if iname in ("tuple2", "rowneg") and len(shape) == 1:
+            raise Skip("two-axis index")
+        idx = eval(IDX[iname], dict(onp=onp, slice=slice))
+        parts = list(idx) if isinstance(idx, tuple) else [idx]
+        arrs = [a for a in parts if isinstance(a, onp.ndarray)]
+        if frozen:
+            for a in arrs:
+                a.flags.writeable = False
+        snaps = [(a.shape, str(a.dtype), a.tobytes()) for a in arrs]
+        n = int(onp.prod(shape))
+        x = ro((onp.modf((onp.arange(n) + 1 + seed) * 0.6180339887)[0] + 0.5).reshape(shape))
+        f = eval("lambda x: np.sum((%s) ** 2)" % form, dict(np=np, idx=idx, onp=onp))
+        fplain = eval("lambda x: onp.sum((%s) ** 2)" % form.replace("np.", "onp."), dict(idx=eval(IDX[iname], dict(onp=onp, slice=slice)), onp=onp))
+        problems = []
+        with warnings.catch_warnings():
+            warnings.simplefilter("ignore")
+            try:
+                fplain(x)
+            except Exception:
+                raise Skip("NumPy rejects")
+            try:
+                if op == "grad":
+                    g = ag.grad(f)(x)
+                elif op == "vjp-twice":
+                    vjp, _ = ag.make_vjp(f)(x)
+                    g = vjp(1.0)
+                    g2 = vjp(1.0)
+                    if _bytes(g) != _bytes(g2):
+                        problems.append("second-vjp-call-differs")
+                elif op == "jvp":
+                    g = None
+                    ag.make_jvp(f)(x)(onp.ones(shape))
+                else:
+                    g = None
+                    ag.make_hvp(f)(x)[0](onp.ones(shape))
+                if g is not None:
+                    eps = 1e-6
+                    fd = onp.array([(fplain(x + eps * e.reshape(shape)) - fplain(x - eps * e.reshape(shape))) / (2 * eps) for e in onp.eye(n)]).reshape(shape)
+                    if not onp.allclose(g, fd, rtol=1e-6, atol=1e-6):
+                        problems.append("wrong-gradient")
+                # the captured constants afterwards, and the function evaluated again through plain NumPy semantics
+                if [(a.shape, str(a.dtype), a.tobytes()) for a in arrs] != snaps:
+                    problems.append("captured-index-bytes-changed")
+            except ValueError as e:
+                if "read-only" in str(e) or "not writeable" in str(e).lower():
+                    problems.append("write-to-read-only-memory")
+                else:
+                    problems.append("raised: " + str(e)[:80])
+            except Exception as e:
+                problems.append("raised: %s: %s" % (type(e).__name__, str(e)[:80]))
+        return iname, form, shape, frozen, op, sorted(set(problems))
+
+    def judge(ch, o):
+        iname, form, shape, frozen, op, problems = o
+        desc = dict(index=IDX[iname], form=form, shape=list(shape), frozen=frozen, operator=op)
+        v = [violation(PROP, "captured", "-", op, pr.split(":")[0], dict(index=iname, frozen=frozen, form=form), ch.choices, desc, pr, None,
+                       "# idx = %s captured by f = lambda x: np.sum((%s) ** 2); x of shape %r; %s" % (IDX[iname], form, shape, op)) for pr in problems]
+        return dict(v=v, nontrivial=True, outcome=(iname, form, tuple(problems)), counts={}, sample=dict(choices=list(ch.choices), **desc))
+
+    return h, judge
+
+
+HARNESSES = {"programs": programs_factory, "containers": containers_factory, "captured": captured_factory}
 HARNESSES.update(_cat_table())
 
 
 def run(ctx):
     rep = Report("exploration")
     run_harnesses(ctx, rep, __name__, ["programs"], depth=4 if ctx.quick else 6)
-    run_harnesses(ctx, rep, __name__, ["containers"] + [h for h in HARNESSES if h.startswith("cat:")], depth=2)
+    run_harnesses(ctx, rep, __name__, ["containers", "captured"] + [h for h in HARNESSES if h.startswith("cat:")], depth=2)
     rep.add(rule="leaf = (shape, program of n<=%d ops over 8 unary / 2 binary op forms with operands from x, C, earlier results, "
                  "output position or tuple, 3-call history over 2 (co)tangents); non-trivial = sparse use or fan-out > 1" % (2 if ctx.quick else 3))
     rep.assumptions = ["shapes (2,), (2,3); every array handed in is writeable=False and byte-snapshotted",
